@@ -450,6 +450,12 @@ package webdav
 //@   ensures P1: err == nil ==> wstatus(w) == 207 && servedMS != nil && len(servedMS.Responses) == 1 && len(servedMS.Responses[0].Hrefs) == 1 && servedMS.Responses[0].Hrefs[0].Path == r.URL.Path
 //@   ensures P2: err != nil ==> (httpCode(err) == 400 && !hostPath(err) && wstatus(w) == 0) || (fromEnv(err) && wstatus(w) == 207)
 //@   loop 1 invariant I1: props != nil && wstatus(w) == 0 && (forall k xml.Name :: has(props, k) ==> props[k] != nil)
+//@   -- C11: every home set handed to the helper is exposed under its own name by a constant property function that returns a
+//@   -- home set of that name (closure rule: the function literal captures a per-iteration, write-once copy of the loop
+//@   -- variable), and, when the names are pairwise distinct, exactly that home set
+//@   loop 1 invariant I2: forall j int :: 0 <= j && j < #i ==> (let k : homeSetXMLName(options.HomeSets[j]) in has(props, k) && isConstFn(props[k]) && homeSetXMLName(constVal(props[k])) == k)
+//@   loop 1 invariant I3: (forall a int, b int :: 0 <= a && a < b && b < len(options.HomeSets) ==> homeSetXMLName(options.HomeSets[a]) != homeSetXMLName(options.HomeSets[b]))
+//@   |   ==> (forall j int :: 0 <= j && j < #i ==> constVal(props[homeSetXMLName(options.HomeSets[j])]) == options.HomeSets[j])
 //@ func webdav.ServePrincipal(w, r, options)
 //@   requires R1: w != nil && wstatus(w) == 0 && validReq(r) && options != nil && respHeader(w) != r.Header && !leakTracked
 //@   requires R2: forall j int :: 0 <= j && j < len(options.HomeSets) ==> options.HomeSets[j] != nil
@@ -485,6 +491,8 @@ package webdav
 //@ func webdav.servePrincipalPropfind$3(raw) (val, err)
 //@   -- (the home sets handed to the helper are non-nil: R2 of servePrincipalPropfind)
 //@   requires C1: *hs != nil
+//@   constfn hs
+//@   ensures CONST: err == nil && val == *hs
 //@   ensures VN: err == nil ==> val != nil
 //@   allocates
 //@   ensures V1: mutations == old(mutations) && epCalls == old(epCalls) && epCode == old(epCode) && epVal == old(epVal)
